@@ -96,6 +96,8 @@ where
 enum Phase<F> {
     Calling(#[pin] F),
     Sleeping(#[pin] tokio::time::Sleep),
+    /// Backoff elapsed: waiting for the inner service to be ready before retrying
+    Readying,
     Failed,
 }
 
@@ -194,9 +196,9 @@ where
                         Poll::Ready(()) => {
                             // Sleep complete - check retry_on_reconnect flag
                             if this.config.retry_on_reconnect {
-                                // Retry the original request (reconnection happens via clone)
-                                let call_future = this.inner.call(this.request.clone());
-                                this.phase.set(Phase::Calling(call_future));
+                                // Retry the original request (reconnection happens via clone),
+                                // once the inner service reports readiness
+                                this.phase.set(Phase::Readying);
                             } else {
                                 // Don't retry - return error to caller
                                 // The backoff succeeded, so mark connected for next request
@@ -211,6 +213,17 @@ where
                         Poll::Pending => return Poll::Pending,
                     }
                 }
+                PhaseProj::Readying => match this.inner.poll_ready(cx) {
+                    Poll::Ready(Ok(())) => {
+                        let call_future = this.inner.call(this.request.clone());
+                        this.phase.set(Phase::Calling(call_future));
+                    }
+                    Poll::Ready(Err(error)) => {
+                        this.phase.set(Phase::Failed);
+                        return Poll::Ready(Err(ReconnectError::ServiceError(error)));
+                    }
+                    Poll::Pending => return Poll::Pending,
+                },
                 PhaseProj::Failed => {
                     panic!("ReconnectFuture polled after completion");
                 }
